@@ -67,4 +67,11 @@ func init() {
 		Real:        append([]string{"vm.growValueStack", "callBytecodeFunction / CallGeneratorNext / callBytecodePromise stack copies", "vm.ThreadPool sizing"}, realAll...),
 		Stub:        stubAll,
 	}
+	engineTable["C34"] = engineInfo{
+		Engine:      "C34",
+		Rule:        "case = generated suite tree (depth <= 4, up to ~25 cases declared with test / it / should inside describe / context blocks, passing, failing and erroring bodies, before_each / after_each / before_all hooks) written as an Elk test file at tracked line numbers x 0-1 grep filter (words, case ids, alternations, suite prefixes) x 0-1 path[:line] filter (matching and non-matching globs; line on a case, inside a case, on a describe line, anywhere, or absent) x shuffle seed x event channel capacity 1-50 x reporter stalling 0-40 scheduler steps per event x one schedule. Oracle: the multiset of cases reported as started equals the cases that satisfy every filter in the property's words (grep matches the full name; the line lies within the case or names an enclosing block), each exactly once and each finished; the exit status computed as cmd/elk does is failure iff a case that ran failed or errored. Non-trivial: a filter is present or the reporter interleaves; distinct: hash of (file, filters, seed, capacity, schedule trace)",
+		Assumptions: append([]string{"shutdown from the reporter is not injected: the property does not say what the status should be then", "the doublestar glob semantics are trusted for the three patterns used"}, commonAssumptions...),
+		Real:        append([]string{"ext/std/test: describe/test/it/should natives, Suite.Run, Case.Run, filters, RunWith"}, realAll...),
+		Stub:        append([]string{"the reporter (recording implementation of the Reporter interface)", "cmd/elk flag parsing and os.Exit (the exit status expression is evaluated by the harness)"}, stubAll...),
+	}
 }
